@@ -79,3 +79,72 @@ pub fn region(off: usize, len: usize, padding: usize) -> &'static str {
         "body"
     }
 }
+
+/// The standard `Iterator` protocol on a public iterator of the crate: every way of consuming it
+/// (`count`, `last`, `nth`, `skip`, `step_by`, `size_hint`, calls after the end) must agree with what
+/// draining it with `next()` yields - an overridden provided method has to be observationally the
+/// default one. `mk` makes a fresh iterator, `proj` projects an item to a comparable value,
+/// `expected` is the `next()`-drain (already checked against the reference by the caller).
+/// The caller wraps the call in a panic guard.
+pub fn iter_protocol<I, T>(what: &str, prop: &str, mk: impl Fn() -> I, proj: impl Fn(I::Item) -> T, expected: &[T], salt: u64, fused: bool) -> crate::run::Verdict
+where
+    I: Iterator,
+    T: PartialEq + std::fmt::Debug,
+{
+    use crate::ensure;
+    let n = expected.len();
+    if n > 4096 {
+        return Ok(());
+    }
+    let sig = |m: &str| format!("{prop}:{what}:iterator-protocol:{m}");
+    crate::run::step("iterator protocol");
+    // size_hint of a fresh iterator brackets the number of items
+    let (lo, hi) = mk().size_hint();
+    ensure!(lo <= n && hi.map(|h| n <= h).unwrap_or(true), sig("size_hint"), "{what}: size_hint() = ({lo}, {hi:?}) but next() yields {n} items");
+    let c = mk().count();
+    ensure!(c == n, sig("count"), "{what}: count() = {c} but next() yields {n} items");
+    let l = mk().last().map(&proj);
+    ensure!(l.as_ref() == expected.last(), sig("last"), "{what}: last() = {l:?}, the last item next() yields is {:?}", expected.last());
+    let ks = [0usize, 1, 2, (salt as usize) % (n + 2), n.saturating_sub(1), n, n + 1];
+    for &k in &ks {
+        let mut it = mk();
+        let got = it.nth(k).map(&proj);
+        ensure!(got.as_ref() == expected.get(k), sig("nth"), "{what}: nth({k}) on a fresh iterator = {got:?}, item {k} of the next() sequence is {:?}", expected.get(k));
+        // the iterator goes on from there
+        let after = it.next().map(&proj);
+        let want = if k < n { expected.get(k + 1) } else { None };
+        ensure!(k >= n && !fused || after.as_ref() == want, sig("next-after-nth"), "{what}: next() after nth({k}) = {after:?}, want {want:?}");
+    }
+    // a partly consumed iterator
+    let j = if n == 0 { 0 } else { 1 + (salt as usize >> 8) % n };
+    let mut it = mk();
+    for _ in 0..j {
+        let _ = it.next();
+    }
+    let (lo, hi) = it.size_hint();
+    let rest = n - j.min(n);
+    ensure!(lo <= rest && hi.map(|h| rest <= h).unwrap_or(true), sig("size_hint-after-next"), "{what}: after {j} next() calls size_hint() = ({lo}, {hi:?}) but {rest} items remain");
+    let c = it.count();
+    ensure!(c == rest, sig("count-after-next"), "{what}: after {j} next() calls count() = {c} but {rest} items remain");
+    let mut it = mk();
+    for _ in 0..j {
+        let _ = it.next();
+    }
+    let got = it.nth(1).map(&proj);
+    ensure!(got.as_ref() == expected.get(j + 1), sig("nth-after-next"), "{what}: after {j} next() calls nth(1) = {got:?}, want {:?}", expected.get(j + 1));
+    // adaptors built on nth / advance
+    let k = (salt as usize >> 16) % (n + 2);
+    let got: Vec<T> = mk().skip(k).map(&proj).collect();
+    ensure!(got.as_slice() == expected.get(k.min(n)..).unwrap_or(&[]), sig("skip"), "{what}: skip({k}) yields {} items, want {}", got.len(), n - k.min(n));
+    let got: Vec<T> = mk().step_by(2).map(&proj).collect();
+    let want: Vec<&T> = expected.iter().step_by(2).collect();
+    ensure!(got.iter().collect::<Vec<_>>() == want, sig("step_by"), "{what}: step_by(2) yields {got:?}, want {want:?}");
+    // past the end it stays at the end
+    let mut it = mk();
+    let _ = it.nth(n);
+    for _ in 0..if fused { 3 } else { 0 } {
+        let x = it.next().map(&proj);
+        ensure!(x.is_none(), sig("item-after-the-end"), "{what}: next() after the end = {x:?}");
+    }
+    Ok(())
+}
